@@ -1983,9 +1983,15 @@ PARTIAL = {
                        "coordinates of the polygon vertices (pinv and solve contracts); with lo = -EPSILON from "
                        "vertex_inside_both_tetrahedra this is 'non-negative up to EPSILON', for kept rows only; exact "
                        "non-negativity (lo = 0) needs vertices exactly inside, which the EPSILON slack of the code does not give",
-    "skipped_rows": "for a face parallel to the contact plane (row skipped) the theorem bounds the coordinate by its value at plane_point "
-                    "+- EPSILON*(|q0|+|q1|); that this value is positive follows from check_tetrahedra_intersect_contact_plane (both "
-                    "sides of the plane) but is not proved here",
+    "skipped_rows": "for a skipped row vertex_inside_both_tetrahedra bounds the coordinate by its value at plane_point "
+                    "+- EPSILON*(|q0|+|q1|). Proved now (skipped_row_coordinate_pos, pair_parallel_face_coordinate_pos): if the "
+                    "face is exactly parallel to the contact plane (row gradient a multiple of the unit normal), the pinv "
+                    "contract holds and check_tetrahedra_intersect_contact_plane accepts (tolerance >= 0), then the row is "
+                    "skipped, is constant on the plane and its value there (at plane_point and at every polygon vertex) is "
+                    "strictly in (0, 1). Remaining: rows skipped with a 2-D normal of norm in (0, EPSILON] (not exactly "
+                    "parallel); for these positivity at plane_point is false in general "
+                    "(skipped_row_value_at_plane_point_counterexample: tilt 1e-16, tetrahedron at x ~ 1e16, value -1/2) and "
+                    "only the EPSILON*(|q0|+|q1|) bound of vertex_inside_both_tetrahedra is proved",
 }
 ASSUMPTIONS = [
     "np.linalg.pinv in barycentric_transforms returns X with X.[[v^T],[1 1 1 1]] = I (IsBaryTransform); the rows X1, X2 are "
@@ -2012,6 +2018,9 @@ MANIFEST = dict(
           "EPSILON and lies on two non-parallel boundary lines), halfplane_is_trace (the 2-D test value equals the "
           "barycentric coordinate of the lifted 3-D point, any cart2plane), vertex_on_plane, vertex_inside_both_tetrahedra, "
           "pair_polygon_spec (regular exit of intersect_tetrahedron_pair), barycentric_lower_bound (pinv contract), "
+          "skipped_row_coordinate_pos / pair_parallel_face_coordinate_pos (rows of faces exactly parallel to the contact plane: "
+          "skipped, value in (0,1) on the plane when the straddle check accepts), "
+          "skipped_row_value_at_plane_point_counterexample (not so for rows skipped within EPSILON but not parallel), "
           "force_along_normal, pressure_lower_bound, area_nonneg, no_valid_point_no_polygon, reported_pairs_branches, "
           "swap_contact_plane, halfplane_buffer_never_overflows (unconditional: for every list of half-planes, any n "
           "incl. 0, intersect_halfplanes neither indexes its n(n-1)/2+1 row buffer out of range nor trips its assert), "
